@@ -41,8 +41,8 @@ PRODUCERS = [
      ["Pt{n}(1, 'a')", "Pt{n}(1, 'a').x", "Pt{n}"]),
     ("typednt", 0, "from typing import NamedTuple\nclass Rec{n}(NamedTuple):\n  a: int\n  b: str = 'z'\n",
      ["Rec{n}(1)", "Rec{n}(1).b", "Rec{n}"]),
-    ("enum", 1, "import enum\nclass Color{n}(enum.Enum):\n  RED = 1\n  BLUE = 'b'\n",
-     ["Color{n}.RED", "Color{n}.BLUE.value", "Color{n}"]),
+    ("enum", 1, "import enum\nfrom typing import Literal\nclass Color{n}(enum.Enum):\n  RED = 1\n  BLUE = 'b'\ndef paint{n}(c: Literal[Color{n}.RED]) -> str:\n  return 'red'\ndef pick{n}() -> Literal[Color{n}.BLUE]:\n  return Color{n}.BLUE\n",
+     ["Color{n}.RED", "Color{n}.BLUE.value", "Color{n}", "pick{n}()", "paint{n}(Color{n}.RED)"]),
     ("intenum", 1, "import enum\nclass Prio{n}(enum.IntEnum):\n  LOW = 1\n  HIGH = 2\nclass Perm{n}(enum.IntFlag):\n  R = 4\n  W = 2\n",
      ["Prio{n}.LOW", "Perm{n}.R | Perm{n}.W", "Prio{n}.LOW + 1", "Prio{n}", "[Prio{n}.HIGH, 1]"]),
     ("libsub", 0, "import collections\nclass MyOD{n}(collections.OrderedDict):\n  pass\nclass MyDD{n}(collections.defaultdict):\n  pass\nclass MyL{n}(list):\n  pass\n",
